@@ -328,6 +328,7 @@ dgsrfs(trans_t trans, SuperMatrix *A, SuperMatrix *L, SuperMatrix *U,
                    residual also must be exactly 0.0. */
 	    }
 	    berr[j] = s;
+	    SLU_VHOOK("R:RefineIter", "\"j\":%d,\"count\":%d,\"berr\":%s,\"lstres\":%s,\"gt_eps\":%d,\"halved\":%d,\"below_itmax\":%d", j, count, slu_v_tok((double) berr[j]), slu_v_tok((double) lstres), berr[j] > eps, berr[j] * 2. <= lstres, count < ITMAX);
 
 	    /* Test stopping criterion. Continue iterating if   
 	       1) The residual BERR(J) is larger than machine epsilon, and   
@@ -348,7 +349,9 @@ dgsrfs(trans_t trans, SuperMatrix *A, SuperMatrix *L, SuperMatrix *U,
 #endif
 		lstres = berr[j];
 		++count;
+		SLU_VHOOK("R:RefineStep", "\"j\":%d,\"count\":%d", j, count);
 	    } else {
+		SLU_VHOOK("R:RefineStop", "\"j\":%d,\"count\":%d", j, count);
 		break;
 	    }
         
